@@ -121,7 +121,7 @@ pub struct VirtualSign<'a> {
     state: State,
     pages: Vec<Page<'a>>,
     pending_data: Vec<u8>,
-    data_chunks: u16,
+    data_chunks: u32,
     width: u32,
     height: u32,
     sign_type: Option<SignType>,
@@ -293,20 +293,20 @@ impl VirtualSign<'_> {
 
             self.width = width;
             self.height = u32::from(height);
-            self.data_chunks += 1;
+            self.data_chunks = self.data_chunks.saturating_add(1);
         } else if self.state == State::PixelsInProgress {
             if offset == Offset(0) {
                 self.flush_pixels();
             }
             self.pending_data.extend_from_slice(data);
-            self.data_chunks += 1;
+            self.data_chunks = self.data_chunks.saturating_add(1);
         }
         None
     }
 
     /// Handles `DataChunksSent` messages.
     fn data_chunks_sent<'a>(&mut self, chunks: ChunkCount) -> Option<Message<'a>> {
-        if ChunkCount(self.data_chunks) == chunks {
+        if self.data_chunks == u32::from(chunks.0) {
             match self.state {
                 State::ConfigInProgress => self.state = State::ConfigReceived,
                 State::PixelsInProgress => self.state = State::PixelsReceived,
